@@ -193,12 +193,46 @@ func Justified(sc am.Schema, before, a Set, called Set, mutType string, isAuto b
 		return fmt.Errorf("P4: %s became active without being called/auto/Add-reachable (before %v after %v called %v)",
 			s, before.List(), a.List(), called.List())
 	}
+	// allowed removers: states active afterwards, plus participants (called,
+	// active before, or in their Add-closure) that are themselves out because of a
+	// Remove relation - removed by a participant, or one of their transitive
+	// Requires removed by a participant. A participant that is out merely because
+	// a Require of it was never around must not remove anything.
+	removedByParticipant := Set{}
+	for x := range closure {
+		for _, r := range sc[x].Remove {
+			removedByParticipant[r] = true
+		}
+	}
 	removers := Set{}
 	for s := range a {
 		removers[s] = true
 	}
-	for s := range closure {
-		removers[s] = true
+	for x := range closure {
+		if a[x] {
+			continue
+		}
+		// transitive requires of x
+		reqs := Set{x: true}
+		stack := []string{x}
+		for len(stack) > 0 {
+			y := stack[len(stack)-1]
+			stack = stack[:len(stack)-1]
+			for _, q := range sc[y].Require {
+				if !reqs[q] {
+					reqs[q] = true
+					stack = append(stack, q)
+				}
+			}
+		}
+		for q := range reqs {
+			if removedByParticipant[q] {
+				removers[x] = true
+			}
+		}
+		if mutType == "remove" && called[x] {
+			removers[x] = true
+		}
 	}
 	for s := range before {
 		if a[s] {
